@@ -38,6 +38,24 @@ for _pid, _text in {
 }.items():
     CLAIMED[_pid] = ("Upload", _UP_TECH, "Exhaustive model checking of the design model (2 files x 3 chunks, one injected failure: RoundTrip, NoSwallowedFailure, ShardAfterXorbs, Limits, Metrics, DedupComplete) plus conformance on recorded executions. " + _text, _UP_NOTE, "5.5, 6 " + _pid)
 
+_SH_NOTE = "hashes are engineered [u64;4] values projected to <<prefix id, full id>>; blake3/HMAC uninterpreted (reference keyed forms from the harness's own blake3 keyed hash); xorb / file content is a function of its hash in the generated shard families."
+CLAIMED["C05"] = ("Shard",
+    "TLC model checking of the lookup / dedup-query definitions of Shard.tla over all small shards (colliding prefixes, repeated chunks, plain and keyed, result buffer overflow; negative control: prefix-only answers); every dedup answer of the in-memory shard, the serialized shard and the ShardFileManager (add / flush / keyed-export / register histories, results of set operations) validated against the declared shard content by Trace_Shard.tla",
+    "Exhaustive check of the model's query semantics (Truthful, Complete below the collision limit) plus conformance: each recorded answer (n, xorb, range, bytes) must be truthful for some queried shard - recorded chunk hashes at the positions equal the queried hashes (plain, or their keyed form), bytes = sum of lengths - for present, absent, partially matching and overrunning queries under engineered 64-bit prefix collisions.",
+    _SH_NOTE, "5.4, 6 C05")
+CLAIMED["C09"] = ("Shard",
+    "TLC model checking of ShardSearch.tla (transcription of search_on_sorted_u64s with EVERY probe position the interpolation could produce, read windows 1-3, safety + termination; negative control) and of Shard.tla lookups; real search run on all sorted arrays up to length 5-6 over extreme keys with shrunk windows (hook) and on 257-4000-entry tables with default constants; every file / xorb lookup, full scan (seekable, minimal, streaming readers) and size / total of serialized shards validated against the declared content by Trace_Shard.tla",
+    "Exhaustive model checking of the search algorithm (result = exactly the entries holding the key, up to the buffer capacity, no duplicates, terminates) plus conformance of the real search and of every reader on shards with 0..280 records, up to 7 records sharing a prefix, all four flag combinations and empty records.",
+    _SH_NOTE, "5.4, 6 C09")
+CLAIMED["C10"] = ("Shard",
+    "TLC model checking of ShardSetOps.tla (two-cursor merge with the code's action table incl. the four flag-superset cases; result = set-theoretic union / difference, sorted, no duplicates, terminates; negative control); unions / differences through readers, files and in-memory shards and consolidation of session directories at several thresholds executed on generated shard families and validated by Trace_Shard.tla",
+    "Exhaustive model checking of the merge for all pairs of sorted inputs over 3 hashes x 4 flag sets, plus conformance: the listing, totals and lookup tables of every result must equal the union / difference computed by the spec from the declared inputs; consolidation must keep every record retrievable, return existing hash-named shards, invent nothing and delete only shards covered by a returned shard.",
+    _SH_NOTE, "5.4, 6 C10")
+CLAIMED["C18"] = ("Shard",
+    "TLC model checking of ShardKeyed.tla (export under keys, per-key collections, clock, load / clean; negative controls strict_expiry and no_grace); exports for 3 keys x 8 include-flag combinations, manager dedup with unkeyed hashes against original and keyed directories, expiry at the exact boundaries through a clock hook, validated by Trace_Shard.tla",
+    "Exhaustive model checking of the keyed-shard life cycle plus conformance: every exported shard must hold exactly the independently computed keyed form of every chunk hash (no raw hash under a non-zero key), unchanged xorb and file hashes, file records kept or dropped and optional tables present exactly as requested; manager answers for unkeyed queries equal the original's; loaded iff now <= expiry, deleted iff expiry + grace <= now.",
+    _SH_NOTE + " Equality of manager answers is checked on collision-free prefixes (see evidence assumptions).", "5.4, 6 C18")
+
 PENDING_REASON = "check not built yet in this round (planned in DESIGN.md section 6); no claim is made"
 
 checks = []
